@@ -84,6 +84,11 @@ class Collections(Space):
                 for b2 in B:
                     for b3 in B[::2]:
                         cs.append((((b1, b2, b3),), ()))
+        # page-boundary sweep: the same block group at every distance from the bottom of a page (k lead-in paragraphs)
+        groups = ["thumb+paras"] if tier == "quick" else ["thumb+paras", "table-2x2", "ul-ol", "img-gallery", "pre", "dl"]
+        for g in groups:
+            for k in range(0, 48):
+                cs.append(((("@boundary", g, k),), ()))
         self.cases = cs
 
     def __len__(self):
@@ -153,6 +158,33 @@ class C08(InputProp):
         tokens = []
         pages = {}
         for ai, blocks in enumerate(articles):
+            if blocks and blocks[0] == "@boundary":
+                _, group, nfill = blocks
+                parts = []
+                for i in range(nfill):
+                    ws = [k() for _ in range(24)]
+                    tokens.extend(ws)
+                    parts.append(" ".join(ws))
+                if group == "thumb+paras":
+                    cap = k()
+                    shorts = [[k() for _ in range(6)] for _ in range(3)]
+                    longp = [k() for _ in range(140)]
+                    tokens.append(cap)
+                    for sp in shorts:
+                        tokens.extend(sp)
+                    tokens.extend(longp)
+                    parts.append("[[File:I1.png|thumb|%s]]\n%s\n\n%s" % (cap, "\n\n".join(" ".join(sp) for sp in shorts), " ".join(longp)))
+                else:
+                    txt, toks = block_text(group, k)
+                    parts.append(txt)
+                    tokens.extend(toks)
+                tail = [k() for _ in range(12)]
+                tokens.extend(tail)
+                parts.append(" ".join(tail))
+                title = "Art%d" % (ai + 1)
+                pages[title] = "\n\n".join(parts) + "\n"
+                mb.append_article(title)
+                continue
             if ai in chapters:
                 ct = k()
                 mb.items.append(m["metabook"].Chapter(title="Chapter " + ct))
@@ -200,7 +232,7 @@ class C08(InputProp):
         try:
             with contextlib.redirect_stdout(io.StringIO()), contextlib.redirect_stderr(io.StringIO()):
                 zp, tokens, pages = self.build_collection(case, d)
-                shape = "|".join("+".join(a) for a in case[0])
+                shape = "|".join("+".join(map(str, a)) for a in case[0])
                 # (a) rl writer entry point
                 env = m["wiki"].make_wiki(zp)
                 out = os.path.join(d, "book.pdf")
@@ -249,7 +281,7 @@ class C08(InputProp):
                     with contextlib.suppress(Exception):
                         env.images.clear()
                 # (c) single-article test mode
-                if len(case[0]) == 1:
+                if len(case[0]) == 1 and case[0][0][0] != "@boundary":
                     env = m["wiki"].make_wiki(zp)
                     try:
                         art = env.wiki.get_parsed_article("Art1")
@@ -280,6 +312,8 @@ class C08(InputProp):
 
     def where(self, case, tokens, tok):
         """name of the block that generated the token"""
+        if case[0] and case[0][0] and case[0][0][0] == "@boundary":
+            return "boundary:%s" % case[0][0][1]
         k = G.Tok()
         for ai, blocks in enumerate(case[0]):
             if ai in case[1]:
